@@ -69,3 +69,20 @@ pub(crate) async fn sched_point() {
         YieldOnce(false).await;
     }
 }
+
+impl crate::Ldap {
+    /// Message ID table: last allocated ID and the sorted set of IDs in use.
+    pub fn verif_id_table(&self) -> (i32, Vec<i32>) {
+        let msgmap = self.msgmap.lock().expect("msgmap mutex (verif read)");
+        let mut in_use: Vec<i32> = msgmap.1.iter().copied().collect();
+        in_use.sort_unstable();
+        (msgmap.0, in_use)
+    }
+
+    /// Position the ID counter and pre-seed the in-use set.
+    pub fn verif_set_id_table(&self, last: i32, in_use: &[i32]) {
+        let mut msgmap = self.msgmap.lock().expect("msgmap mutex (verif write)");
+        msgmap.0 = last;
+        msgmap.1 = in_use.iter().copied().collect();
+    }
+}
